@@ -3,10 +3,12 @@ import TsV.Model.Sx
 /-!
 # C15 — driver request `(c15 <style> <indent> ("doc" …))`
 
-Answers with the model's rendering of the comment block, the origin tag of every character, the
-lexer's comment mask (`1`: the lexer of the language is in a comment state before and after the
-character), `contained` and `Bad` per doc string.  `tools/c15.py` uses it to check that its python
-lexers and `Bad` predicates are the Lean ones.
+Answers with the model's rendering of the comment block (the strings handed to the renderer as they
+are), the origin tag of every character, the lexer's comment mask (`1`: the lexer of the language is in
+a comment state before and after the character), `contained` and `Bad` per string; and for the same
+strings read as `#[doc]` values: the parser's `entries`, the rendering of the entries, its `contained`
+and `KnownScalaSub`.  `tools/c15.py` uses it to check that its python lexers, `Bad` predicates and
+line splitting are the Lean ones.
 -/
 namespace TsV.C15
 open TsV
@@ -46,7 +48,11 @@ def request (U : UnicodeOps) : Sx → Option J
                 ("tags", .str (t.map fun p => if p.2 then '1' else '0')),
                 ("mask", .str (maskOf sty (erase t))),
                 ("contained", .bool (contained sty U n docs)),
-                ("bad", .arr (docs.map fun c => .bool (Bad sty U c)))])
+                ("bad", .arr (docs.map fun c => .bool (Bad sty U c))),
+                ("entries", .arr ((entries U docs).map .str)),
+                ("entries_text", .str (render sty U n (entries U docs))),
+                ("entries_contained", .bool (contained sty U n (entries U docs))),
+                ("known_scala_sub", .bool (KnownScalaSub sty U docs))])
   | .list [.atom "c15-mask", .atom sty, .str text] => do
     let sty ← styleOf sty
     some (.obj [("mask", .str (maskOf sty text))])
